@@ -18,9 +18,17 @@ import (
 // (in particular around its final status transition, where no yield point can be placed). After every
 // round - all calls returned, every executor goroutine finished - the audit is taken WITHOUT a further
 // cache call: the status is idle, the write buffer is empty and the structures agree.
-func runC14Pairs(seed uint64, rounds int) (violation string, t *Trial, done int) {
+//
+// idleEntry: one of the racers is not a writer but a read of an entry that has expired and was not swept
+// (manual clock, deadline and reads within one timer tick): such a read enters the drain scheduling while
+// the status is idle - the other way into the protocol - at the moment a writer moves it to required.
+func runC14Pairs(seed uint64, rounds int, idleEntry bool) (violation string, t *Trial, done int) {
 	const keys = 8
+	const lingering = 100
 	cfg := TrialCfg{Prop: "C14", Seed: seed, SizeKind: 1, Max: 1024, Exec: ExecDefault, G: 3, Ops: rounds, Keys: keys}
+	if idleEntry {
+		cfg.ExpiryTTL = 1000
+	}
 	t, err := NewTrial(cfg)
 	if err != nil {
 		return "cannot build: " + err.Error(), nil, 0
@@ -40,6 +48,13 @@ func runC14Pairs(seed uint64, rounds int) (violation string, t *Trial, done int)
 			writers = 3
 		}
 		delay := round % 400
+		if idleEntry {
+			delay = round % 60
+			// a fresh entry that has expired by the time of the race and lingers in the table
+			c.Set(lingering, -1000-round)
+			t.wg.Wait()
+			t.Clock.now.Add(3000)
+		}
 		var ready atomic.Int32
 		var wg sync.WaitGroup
 		for w := 0; w < writers; w++ {
@@ -49,8 +64,13 @@ func runC14Pairs(seed uint64, rounds int) (violation string, t *Trial, done int)
 				ready.Add(1)
 				for int(ready.Load()) != writers {
 				}
-				for i := 0; i < delay*w; i++ {
+				// (in the idle-entry variant the racers take turns in being the delayed one)
+				for i := 0; i < delay*((w+round/60)%writers); i++ {
 					sink.Add(1)
+				}
+				if idleEntry && w == 0 {
+					c.GetIfPresent(lingering)
+					return
 				}
 				c.Set((round+w)%keys, round*4+w+1)
 			}(w)
@@ -194,10 +214,13 @@ func runC14PairsAll(col *core.Collector, tier, variant string, seed uint64, shar
 	for part := 0; part < 4 && col.NumViolations() < 6; part++ {
 		cs := core.Derive(seed, core.StrLabel("C14pairs"), uint64(shard), uint64(part))
 		wd.Arm()
-		v, t, done := runC14Pairs(cs, rounds/4)
+		v, t, done := runC14Pairs(cs, rounds/4, part%2 == 1)
 		wd.Disarm()
 		col.Eval(1)
 		col.Count("pairs.rounds", int64(done))
+		if part%2 == 1 {
+			col.Count("pairs.rounds_with_a_read_of_a_lingering_expired_entry", int64(done))
+		}
 		if t != nil {
 			for i, name := range []string{"idle", "required", "processingToIdle", "processingToRequired"} {
 				col.Count("pairs.drain_status_seen_by_writers."+name, t.statusAtWrite[i].Load())
